@@ -43,13 +43,17 @@ def run_reg(chk, A, table_auth):
             for ruv in (False, True):
                 for rup in (True, False):
                     n += 1
-                    if fmt != "tpm" and (n % 3):
+                    if fmt not in ("tpm", "android-key") and (n % 3):
                         continue
                     s = regsim.RScn(fmt, "ES256-P256" if (fmt != "tpm" or n % 2) else "RS256", "RS256" if fmt == "tpm" and n % 4 < 2 else "ES256-P256")
                     s.flags, s.require_uv, s.require_up = f, ruv, rup
                     if fmt == "tpm":
                         s.k["tpm_attrs"] = TPM_ATTRS[n % len(TPM_ATTRS)]
                         s.k["tpm_auth_policy"] = (b"", bytes(32), b"\x01" * 32)[n % 3]
+                    if fmt == "android-key":
+                        # whatever else the attested key's authorization lists say (no auth required, auth timeout, user-presence requirements ...): not flag rules
+                        s.k["ak_tee_tags"] = regsim.AK_TAG_SETS[n % len(regsim.AK_TAG_SETS)]
+                        s.k["ak_sw_tags"] = regsim.AK_TAG_SETS[(n // 2 + 3) % len(regsim.AK_TAG_SETS)] if n % 2 else ()
                     s.n_inter = 0 if fmt == "fido-u2f" else n % 2
                     try:
                         pd, reg = regsim.build(s)
